@@ -1,6 +1,3 @@
 #!/bin/bash
-# Baseline test suite with the hook guard OFF (the normal build never defines DSPLIB_VERIF).
-set -e
-cmake -G Ninja -B /repo/_build -S /repo -DDSPLIB_BUILD_TESTS=ON -DCMAKE_BUILD_TYPE=RelWithDebInfo >/dev/null
-cmake --build /repo/_build
-cd /repo/_build/tests && ./dsplib-test
+# Baseline test suite with the hook guard OFF (the normal CMake build never defines DSPLIB_VERIF).
+exec /verif/tools/build_tree.sh /repo
